@@ -516,6 +516,15 @@ def interp_oracle(ctx: Ctx, kind, case, x, y, xn, polys, tail, w, kw):
     try:
         W = call(x, np.eye(n), xn)                       # weights at xn, from the code itself
         lam = np.abs(W).sum(axis=1)                      # Lebesgue function at xn
+        if kind == "barycentric_interpolator" and np.any(lam > 1e3):
+            # SciPy's barycentric weights lose more than Lambda*eps on such node sets (and it permutes the
+            # nodes randomly): only the well-conditioned abscissae are judged
+            ctx.count("barycentric:ill-conditioned-abscissae-skipped", int(np.sum(lam > 1e3)))
+            xn = xn[lam <= 1e3]
+            if len(xn) == 0:
+                return
+            W = call(x, np.eye(n), xn)
+            lam = np.abs(W).sum(axis=1)
         ymax = float(np.max(np.abs(y))) + 1e-300
         amp = 1.0 + float(np.max(np.abs(x - x.mean())) / np.min(np.diff(x)))
         unit = 1e-12 * max(w, 4) * amp
